@@ -8,7 +8,7 @@ use serde_json::Value;
 use std::time::Instant;
 
 /// Keys never shrunk (their value only has meaning relative to other fields).
-const PROTECTED_KEYS: [&str; 9] = ["seed", "epoch_secs", "max_decisions", "timeout_ms", "heartbeat", "limit", "rx_capacity", "latency_max_ns", "status"];
+const PROTECTED_KEYS: [&str; 10] = ["seed", "epoch_secs", "max_decisions", "timeout_ms", "heartbeat", "limit", "rx_capacity", "latency_max_ns", "status", "near_us"];
 /// String keys holding an enumerated value: shrinking characters would leave the vocabulary.
 const ENUM_KEYS: [&str; 24] = ["kind", "op", "mode", "method", "path", "version", "conn", "ending", "cors", "malformed", "host", "route", "pattern", "addr", "src", "target", "cut_kind", "garbage", "seg", "framing", "matches", "peer", "lifetime", "jump"];
 
